@@ -263,6 +263,21 @@ def c02(pid, tier, seed, selftest=False):
                           "enc": {"op": "enc", "api": "pass", "aad": "pass", "cs": 65536, "plen": 70000, "rs": [], "ws": [], "fs": [],
                                   "kseed": 900 + j, "pseed": 3, "id": sid, "password_hex": pw},
                           "dec": {"rs": [], "ws": [], "fs": [], "wrong_key": True, "wrong_password_hex": other}})
+    # near the block size of the HMAC inside scrypt, a password and its SHA-256 digest are DIFFERENT keys up to 64 bytes
+    # (RFC 2104 only hashes longer keys): the digest of a 63- or 64-byte password must be refused like any wrong password
+    import hashlib as _h
+    for j, pw in enumerate(["42" * 63, "43" * 64, "6b" * 32 + "2d" * 32, "c3a9" * 32]):
+        other = _h.sha256(bytes.fromhex(pw)).hexdigest()
+        for plen in (0, 70000):
+            sid = "qb.%d.%d" % (j, plen)
+            scenarios.append({"op": "rt", "id": sid,
+                              "enc": {"op": "enc", "api": "pass", "aad": "pass", "cs": 65536, "plen": plen, "rs": [], "ws": [], "fs": [],
+                                      "kseed": 950 + j, "pseed": 3, "id": sid, "password_hex": pw},
+                              "dec": {"rs": [], "ws": [], "fs": [], "wrong_key": True, "wrong_password_hex": other}})
+            scenarios.append({"op": "rt", "id": sid + "s",
+                              "enc": {"op": "enc", "api": "pass", "aad": "pass", "cs": 65536, "plen": plen, "rs": [], "ws": [], "fs": [],
+                                      "kseed": 950 + j, "pseed": 3, "id": sid + "s", "password_hex": pw},
+                              "dec": {"rs": [], "ws": [], "fs": []}})
     account(rep, scenarios)
     for s in scenarios[:1] + scenarios[-3:]:
         rep.sample(s)
@@ -392,6 +407,13 @@ def c03(pid, tier, seed, selftest=False):
     scenarios += dec_from_model(rep, pid, "adv-22-api", st.dec_constants(cs=2, src="Src22", hdr="HdrSmall", edits=1,
                                                                          shorts=0, splits=0),
                                 "Src22", [("key", "key", 2), ("pass", "pass", 3)], variants=1)
+    # non-final chunks shorter than the chunk size
+    scenarios += dec_from_model(rep, pid, "adv-121", st.dec_constants(cs=2, src="Src121", hdr="HdrNone", edits=1,
+                                                                      shorts=0, splits=0),
+                                "Src121", [("chunks", "key", 1), ("chunks", "pass", 2)], variants=1)
+    scenarios += dec_from_model(rep, pid, "adv-121-api", st.dec_constants(cs=2, src="Src121", hdr="HdrSmall", edits=1,
+                                                                          shorts=0, splits=0),
+                                "Src121", [("key", "key", 2), ("pass", "pass", 3)], variants=1)
     scenarios += dec_from_model(rep, pid, "adv-0", st.dec_constants(cs=2, src="Src0", hdr="HdrNone", edits=1,
                                                                     shorts=0, splits=0),
                                 "Src0", [("chunks", "key", 1)], variants=2)
@@ -471,6 +493,10 @@ def c04(pid, tier, seed, selftest=False):
                                 "Src21", [("chunks", "key", 1), ("chunks", "pass", 3)], variants=1)
     scenarios += dec_from_model(rep, pid, "adv-22", st.dec_constants(cs=2, src="Src22", hdr="HdrNone", edits=1, shorts=0, splits=0),
                                 "Src22", [("chunks", "key", 1), ("chunks", "pass", 2)], variants=1)
+    scenarios += dec_from_model(rep, pid, "adv-121", st.dec_constants(cs=2, src="Src121", hdr="HdrNone", edits=1, shorts=0, splits=0),
+                                "Src121", [("chunks", "key", 1), ("chunks", "pass", 2)], variants=1)
+    scenarios += dec_from_model(rep, pid, "adv-121-api", st.dec_constants(cs=2, src="Src121", hdr="HdrSmall", edits=0, shorts=0, splits=0),
+                                "Src121", [("key", "key", 1), ("pass", "pass", 1)], variants=1)
     if thorough:
         scenarios += dec_from_model(rep, pid, "sched-322", st.dec_constants(cs=2, src="Src322", hdr="HdrNone", edits=1,
                                                                             faults=1, splits=1, shorts=1),
@@ -594,6 +620,14 @@ def c10(pid, tier, seed, selftest=False):
     scenarios += dec_from_model(rep, pid, "dec-faults-api", st.dec_constants(cs=2, src="Src21", hdr="HdrSmall", edits=0,
                                                                              faults=1, splits=1, shorts=1),
                                 "Src21", [("key", "key", 1 if thorough else 2), ("pass", "pass", 4 if thorough else 8)])
+    # ciphertexts whose non-final chunks are shorter than the chunk size (written from short reads): read back over every
+    # partition and fault position as well
+    scenarios += dec_from_model(rep, pid, "dec-faults-121", st.dec_constants(cs=2, src="Src121", hdr="HdrNone", edits=0, faults=1,
+                                                                             splits=1, shorts=1),
+                                "Src121", [("chunks", "key", 2), ("chunks", "pass", 3)])
+    scenarios += dec_from_model(rep, pid, "dec-121-api", st.dec_constants(cs=2, src="Src121", hdr="HdrSmall", edits=0, faults=0,
+                                                                          splits=0, shorts=1),
+                                "Src121", [("key", "key", 1), ("pass", "pass", 2)])
     scenarios += production_faults(seed, 150 if thorough else 20, "pf.")
     account(rep, scenarios)
     for s in scenarios[:2] + scenarios[len(scenarios) // 2:len(scenarios) // 2 + 1] + scenarios[-1:]:
@@ -652,13 +686,21 @@ def c11(pid, tier, seed, selftest=False):
                           "kseed": 1, "pseed": 4, "id": "bd%d" % i, "rgen": 0 if i == 0 else 40000, "heapref": True})
         scenarios.append({"op": "bigdec", "api": api, "aad": aad, "plen": plen // 4 + 17, "chunk": 1000, "rs": [], "ws": [],
                           "fs": [], "kseed": 2, "pseed": 5, "id": "bs%d" % i, "heapref": True})
+    # a length field that asks for far more than a chunk: refused without the memory it names ever being requested
+    for i, (api, k, lenf) in enumerate([("key", 0, 0x10000000), ("pass", 1, 0x7fffffff), ("key", 1, 65537 + 16), ("pass", 0, 0xffffffff)]):
+        recs = [{"src": 0, "idx": 0}, {"src": 0, "idx": 1}]
+        recs[k]["lenf"] = lenf
+        scenarios.append({"op": "dec", "api": api, "aad": "key" if api == "key" else "pass", "cs": 65536,
+                          "srcs": [{"chunks": [65536, 100], "kseed": 7, "pseed": 8}],
+                          "file": {"hsrc": 0, "hdr": "ok", "recs": recs, "cut": -1, "trail": 0},
+                          "rs": [], "ws": [], "fs": [], "id": "lf%d" % i, "edits": ["len"]})
     # a small authentic file followed by a long tail of junk (generated, never held): rejected, and rejected in constant memory
     for i, (api, trail) in enumerate([("key", 24 * MiB), ("pass", 24 * MiB)] + ([("key", 700 * MiB)] if thorough else [])):
         scenarios.append({"op": "bigdec", "api": api, "aad": "key" if api == "key" else "pass", "plen": 4 * 65536 + 13, "chunk": 65536, "trail": trail,
                           "rs": [], "ws": [], "fs": [], "kseed": 3, "pseed": 6, "id": "bt%d" % i, "heapref": True})
     for s in scenarios:
         e = s["enc"] if s["op"] == "rt" else s
-        rep.case(key_of(s), e["plen"] > e.get("cs", 65536))
+        rep.case(key_of(s), e.get("plen", 65636) > e.get("cs", 65536))
     for s in scenarios[:1] + scenarios[-2:]:
         rep.sample(s)
     runs = st.run_and_validate(rep, pid, "big", scenarios, tpl, seed, nproc=len(scenarios))
